@@ -85,7 +85,9 @@ func GenSshdMsg(t *simrt.Tape, form string, uniq int) *SshdMsg {
 			if l.KeyID == "" {
 				l.KeyID = fmt.Sprintf("user%d@example.com", uniq)
 			}
-			switch t.Choose(4, "keyid.odd") {
+			switch t.Choose(5, "keyid.odd") {
+			case 4:
+				l.KeyID = "" // ssh-keygen -I '': sshd prints "ID  (serial N)"
 			case 0:
 				l.KeyID = fmt.Sprintf("ops team (serial %d) x", uniq)
 			case 3:
